@@ -71,6 +71,7 @@ func GenHistory(t *rapid.T, queries string) History {
 	// coincident and concentric boxes on one hot spot (a node whose entries all share a point, one nested in all others)
 	phase := rapid.SampledFrom([]int{0, 0, 0, 3}).Draw(t, "phase0")
 	hx, hy := rapid.IntRange(0, grid).Draw(t, "hotx"), rapid.IntRange(0, grid).Draw(t, "hoty")
+	hotWide := rapid.Bool().Draw(t, "hotwide")
 	for i := 0; i < n; i++ {
 		stay := 24
 		if phase == 3 {
@@ -95,6 +96,9 @@ func GenHistory(t *rapid.T, queries string) History {
 		switch k {
 		case "hot":
 			r := rapid.SampledFrom([]int{0, 0, 0, 1, 2, 3, 5}).Draw(t, "hotr")
+			if hotWide {
+				r = rapid.IntRange(0, 45).Draw(t, "hotrwide") // many distinct sizes: strictly nested boxes, no two alike
+			}
 			op.K, op.Box = "ins", [4]int{hx - r, hy - r, 2 * r, 2 * r}
 		case "ins":
 			op.Box = [4]int{rapid.IntRange(0, grid).Draw(t, "x"), rapid.IntRange(0, grid).Draw(t, "y"), rapid.IntRange(0, 3).Draw(t, "w"), rapid.IntRange(0, 3).Draw(t, "h")}
